@@ -2,7 +2,7 @@
     exactly.  Statements only.  The decoding of a header value into a tag
     (ConditionalMatch.ETag, i.e. the ETag codec of property C16) is an input:
     [d_if_match r] / [d_if_none_match r] are what it returned. *)
-From GW Require Import Base GoPath Fs DavServer Rfc4918 FsProofs DavRefine DavCorollaries.
+From GW Require Import Base GoPath Fs DavServer Rfc4918 FsProofs DavRefine DavCorollaries Quote CondWire CondWireProofs.
 Local Open Scope list_scope.
 
 (** The check the server performs is the truth table of the specification: it
@@ -104,3 +104,42 @@ Print Assumptions C04_tag_stops_if_none_match.
 Theorem C04_file_tag_nonempty : forall m size, etag_of m size <> ""%string.
 Proof. exact file_tag_nonempty. Qed.
 Print Assumptions C04_file_tag_nonempty.
+
+(** * From the bytes of the headers
+
+    Composition with the entity-tag codec of property C16 (Quote.v): [wire_decoded r]
+    says that the decoded tags the model receives are what the model of
+    ETag.UnmarshalText yields from the header bytes; the oracle evaluates it on every
+    explored request (the harness obtains the tags from the real
+    ConditionalMatch.ETag).  [etag_marshal is_print_hi t] is the text the server
+    announces for tag [t] in ETag headers and getetag properties, for every table of
+    printable code points above U+00FF. *)
+Theorem C04_if_match_announced : forall (is_print_hi : N -> bool) r t cur,
+  cur <> ""%string -> wire_decoded r = true ->
+  h_if_match r = etag_marshal is_print_hi t -> h_if_none_match r = ""%string ->
+  (req_cond r cur = None <-> t = cur).
+Proof. exact if_match_announced. Qed.
+Print Assumptions C04_if_match_announced.
+
+Theorem C04_if_none_match_announced : forall (is_print_hi : N -> bool) r t cur,
+  cur <> ""%string -> wire_decoded r = true ->
+  h_if_none_match r = etag_marshal is_print_hi t -> h_if_match r = ""%string ->
+  (req_cond r cur = None <-> t <> cur).
+Proof. exact if_none_match_announced. Qed.
+Print Assumptions C04_if_none_match_announced.
+
+Theorem C04_announced_on_absent : forall (is_print_hi : N -> bool) r t,
+  wire_decoded r = true ->
+  (h_if_match r = etag_marshal is_print_hi t -> req_cond r "" <> None) /\
+  (h_if_match r = ""%string -> h_if_none_match r = etag_marshal is_print_hi t -> req_cond r "" = None).
+Proof. exact announced_on_absent. Qed.
+Print Assumptions C04_announced_on_absent.
+
+(** A value that is not one double-quoted literal (unquoted, single-quoted, weak, a
+    list) is answered 400 on an existing resource. *)
+Theorem C04_undecodable_is_400 : forall r cur,
+  cur <> ""%string -> wire_decoded r = true ->
+  needs_decoding (h_if_match r) = true -> decode_cond (h_if_match r) = None ->
+  exists e, req_cond r cur = Some e /\ ecode e = 400%N.
+Proof. exact undecodable_is_400. Qed.
+Print Assumptions C04_undecodable_is_400.
